@@ -271,7 +271,7 @@ func init() {
 		var stats map[string]interface{}
 		var ms []mCase
 		p := Prop[gCase]{
-			ID: "C05", Require: gRequire, CaseType: "gcase", Mismatch: "failing_from (gcase_check env0)",
+			ID: "C05", Require: gRequireT, CaseType: "gcase", Mismatch: "failing_from (gcase_check_t env0)",
 			Corr:  "Corr.dec_check (decode = generated ReadFrom on hostile input: same outcome class ok / error / panic, same value)",
 			Rule:  "valid encodings of every generated struct type (RequestPacket/ResponsePacket over-weighted), mutated: bit flips and byte replacement, truncation + junk, every list/map/simple-list count replaced by hostile values (-1, -128, -32768, 2^31-1, 2^30, -2^31, 65536, remaining-1/+0/+1, LONG, wrong tag), STRING4/STRING1 lengths by 2^32-1, 2^31, 255; nesting bombs of 100/511/512/513/600 (and 10^5, 10 MiB; implementation only) struct / list / map / mixed heads as an unknown member; random bytes; plus TUP attribute sets and client response unpacking (implementation only). Every decode in a child process (6 GiB address-space limit, wall-clock cap); monitors: no panic, no process death, allocation <= 256 x input + 1 MiB, decode time; class = (mutation kind, struct type)",
 			Shard: 150,
